@@ -4,7 +4,7 @@ from harness import core, impl, model, gen, xmlsx, stages
 TRANSLATORS = ['parser', 'grammar', 'types', 'xml', 'libs']
 LEVEL = 'proof'
 RULE = ('e2e stage: parse_to_xml vs the extracted Gallina pipeline model on documents with attachment forests (four keywords, any '
-        'nesting depth, with/without headings and subheadings, 7 roots, 3 FRBR URIs, prefixes). Oracle on the implementation: component = '
+        'nesting depth, with/without headings and subheadings, 7 roots, 5 FRBR URIs (two with a language other than eng and an expression date), prefixes). Oracle on the implementation: component = '
         '<parent path>/<keyword>_<n> numbered per keyword among siblings, unique in the document, used consistently in FRBRthis (with '
         '!component) and absent from FRBRuri of work/expression/manifestation, title alias = heading text or Untitled, every eId inside '
         'starts with the attachment\'s own att_<n> id. non-trivial = document with >= 2 attachments; distinct by input.')
@@ -64,6 +64,8 @@ def _oracle(args):
             u = ident.find(ns + lvl + '/' + ns + 'FRBRuri').get('value')
             if this != base + '/!' + comp: return '%s FRBRthis is %r, expected component %r' % (lvl, this, comp)
             if u != base: return '%s FRBRuri is %r, expected %r' % (lvl, u, base)
+        lang = ident.find(ns + 'FRBRExpression/' + ns + 'FRBRlanguage')
+        if lang is None or lang.get('language') != f.language: return 'FRBRlanguage of attachment %r is %r, the document is in %r' % (comp, None if lang is None else lang.get('language'), f.language)
         if comp in seen: return 'component %r used twice' % comp
         seen.add(comp)
         h = att.find(ns + 'heading')
@@ -135,7 +137,7 @@ LEVEL_TEXT = ('Proof over the Gallina model of the generator: for every state, a
               'one more than the number of earlier attachments under the same parent with the same keyword, the stack of enclosing attachments and '
               'all other counters untouched (C15_attachment_name_spec). URIs, title alias and eId scoping are the executable pipeline model '
               '(item_to_xml + tabulated cobalt meta + set_attachment_titles + eId rewrite), tied to the code by the e2e stage on attachment '
-              'forests x 7 roots x 3 FRBR URIs, and checked on the implementation by the attachment oracle. Partial: document-wide uniqueness '
+              'forests x 7 roots x 5 FRBR URIs, and checked on the implementation by the attachment oracle. Partial: document-wide uniqueness '
               'and the URI/alias clauses are not separate theorems.')
 LEVEL_NOTE = 'Trusted: Coq kernel; hand models tied by sampling; cobalt represented by tabulated templates; translators; extraction+driver. The clean-counter premise is C16\'s business.'
 TECHNIQUE = 'Rocq proof (counter specification) + differential run of the extracted pipeline model + attachment oracle'
